@@ -20,6 +20,10 @@ use serde_json::{json, Value};
 
 pub const A8: [u8; 6] = [0x00, 0x01, 0x02, 0x7F, 0x80, 0xFF];
 
+/// thorough tier: the u16 boundary values are also placed at odd positions (fields that follow a u8 /
+/// u24 field). Set once per process by `engine::bounds_for`.
+pub static ODD_U16: std::sync::atomic::AtomicBool = std::sync::atomic::AtomicBool::new(false);
+
 #[derive(Clone, Copy, Debug, PartialEq, Eq)]
 pub enum Atom {
     None,
@@ -160,7 +164,8 @@ pub fn position_atoms(seed: &[u8], p: usize, out: &mut Vec<Atom>) {
             out.push(Atom::Set8(p as u32, v));
         }
     }
-    if p % 2 == 0 && p + 2 <= n {
+    let odd = ODD_U16.load(std::sync::atomic::Ordering::Relaxed);
+    if (p % 2 == 0 || odd) && p + 2 <= n {
         let cur = u16::from_be_bytes([seed[p], seed[p + 1]]);
         for v in u16_values(n, p) {
             if v != cur {
